@@ -181,7 +181,14 @@ func (g *c1mgen) structExpr(depth int, allowClose bool) *c1mx {
 		case 2:
 			typ = '!'
 		}
-		e.decls = append(e.decls, c1md{label: l, typ: typ, v: g.value(depth-1, l, allowClose)})
+		v := g.value(depth-1, l, allowClose)
+		if typ == '!' {
+			// a required field holding bottom switches the closedness check of the node off
+			// (C05 finding bottom-required-constraint-under-hidden-field): required fields
+			// carry `_` here
+			v = &c1mx{op: 'T'}
+		}
+		e.decls = append(e.decls, c1md{label: l, typ: typ, v: v})
 	}
 	return e
 }
@@ -250,6 +257,8 @@ func c1mScalar(x adt.Value) string {
 		return "N"
 	case *adt.BasicType:
 		switch x.K {
+		case adt.TopKind:
+			return "T"
 		case adt.IntKind:
 			return "tI"
 		case adt.StringKind:
@@ -295,6 +304,11 @@ func c1mScalar(x adt.Value) string {
 			}
 		}
 		if isInt {
+			if lo == hi && lo != "*" {
+				// a one-point integer range denotes the atom (the model's normal form);
+				// the evaluator keeps `int & >=n & <=n` unsimplified
+				return "i" + lo
+			}
 			return "r" + lo + ":" + hi
 		}
 	}
@@ -398,7 +412,11 @@ func c1ModelOps(c *Cfg, r *Rng) {
 		e.cue(&sb)
 		ans := c1mImpl(sb.String())
 		line := "eval " + strings.Join(toks, " ")
-		c.Op("O", line, ans)
+		tag := ""
+		if strings.Contains(ans, "!:bot") {
+			tag = "closedness-check-skipped-next-to-bottom-required-field"
+		}
+		c.OpTag("O", tag, line, ans)
 		c.Count("model:" + map[bool]string{true: "bot", false: "value"}[ans == "bot"])
 		c.Case(line, len(toks) > 4 && ans != "bot")
 	}
